@@ -187,6 +187,7 @@ let invariants (s : state) : (string * bool) list =
 
 (* ---- explorer --------------------------------------------------------------------- *)
 let mon_s (m : mon) = Printf.sprintf "%s/%s/%s" (b01 m.m_dec) (String.concat "." (List.map (fun k -> string_of_int (ni k)) m.m_late)) (b01 m.m_ok)
+(* m_started is determined by nsvc of the state: not part of the key *)
 
 let all_items maxnew =
   (* item lists of length <= 2 with at most maxnew requests *)
